@@ -430,11 +430,31 @@ func (x *Exec) doCall(fr *Frame, st *State, call *ssa.Call, cc *ssa.CallCommon, 
 			return
 		}
 		x.check(st, x.site(fr, site, "nilderef"), Neq(f, IntLit(0)), site.Pos())
-		x.note("call through unknown function value (results unconstrained)", fr.fn.Name())
-		k(st, x.freshResults(st, sig, "fnval"))
+		x.trusted("function-typed parameters (e.g. getVolumeName) are called as pure, total functions of their arguments")
+		k(st, fnApply(sig, f, args))
 		return
 	}
 	x.fail("call of %T", fnv)
+}
+
+// fnApply: the results of calling an unknown function value, as uninterpreted functions of (function, arguments).
+func fnApply(sig *types.Signature, f *Term, args []Value) []Value {
+	var argc []*Term
+	argc = append(argc, f)
+	for j := 0; j < sig.Params().Len() && j < len(args); j++ {
+		argc = append(argc, toComps(sig.Params().At(j).Type(), args[j])...)
+	}
+	rets := make([]Value, sig.Results().Len())
+	for j := range rets {
+		rt := sig.Results().At(j).Type()
+		cs := comps(rt)
+		ts := make([]*Term, len(cs))
+		for i, c := range cs {
+			ts[i] = App(fmt.Sprintf("fnres|%d%s", j, c.suffix), c.sort, argc...)
+		}
+		rets[j], _ = fromComps(rt, ts)
+	}
+	return rets
 }
 
 func (x *Exec) freshResults(st *State, sig *types.Signature, hint string) []Value {
